@@ -108,7 +108,8 @@ from bare_script.runtime import BareScriptRuntimeError
 
 EXPR = {expr!r}
 MODEL = parse_script('return ' + EXPR)
-LO, HI = -3, 6
+LO, HI = -3, 11
+BIG = [10 ** 12 + 123, 123456789012345, 2 ** 53, -(10 ** 14) + 1, 999999999999999]      # integral, |n| < 1e15
 
 
 def _run(v):
@@ -123,7 +124,8 @@ def core_val(n):
     ni = nf = None
     for j in range(LO, HI + 1):
         if n == j:
-            ni, nf = j, float(j)
+            v = j if j <= 6 else BIG[j - 7]
+            ni, nf = v, float(v)
     ri = _run(ni)
     rf = _run(nf)
     if ri != rf:
@@ -207,7 +209,7 @@ def plan(tier, seed, workdir):
     p = Plan('C12', 'exploration')
     p.encode(val.value_args_validate)
     info = libinfo.functions()
-    timeout = 60 if tier == 'quick' else 240
+    timeout = 150 if tier == 'quick' else 400
     layouts = []
     for name, args in DEFAULTS.items():
         model = info[name]['model']
@@ -229,7 +231,7 @@ def plan(tier, seed, workdir):
         hgen.ch_tasks(p, path, 'spell', timeout, family='library numeric parameter', function=name, position=k, range=[lo, hi])
     for i, expr in enumerate(VALUE_EXPRS):
         body = CORE_VAL.format(expr=expr)
-        body += hgen.harness('val', 'n: int', ['-3 <= n <= 6'], core_call='core_val(n)')
+        body += hgen.harness('val', 'n: int', ['-3 <= n <= 11'], core_call='core_val(n)')
         path = hgen.write_module(workdir, f'c12_val_{i:02d}', body)
         hgen.ch_tasks(p, path, 'val', timeout, family='number as a value', expr=expr)
     from . import c05
@@ -246,7 +248,7 @@ def plan(tier, seed, workdir):
     p.extra_coverage['generic_functions'] = ngen
     p.rule = ('one CrossHair condition per (library function, numeric parameter) and per value expression; symbolic integral n, both '
               'spellings compared (result, failure behaviour, post-call arguments, debug log count)')
-    p.bounds = ['n in -2..8 by default; datetimeNew components and radix in wider per-parameter ranges (see samples)',
+    p.bounds = ['n in -2..8 by default (value expressions: -3..6 plus five integral values between 1e12 and 1e15); datetimeNew components and radix in wider per-parameter ranges (see samples)',
                 'other arguments: fixed representative containers/strings, converted recursively to the same spelling',
                 f'{len(layouts)} parameter layouts over {len(DEFAULTS)} functions with numeric parameters; {len(VALUE_EXPRS)} value expressions']
     p.stubs = ['ValueArgsError message formatting']
